@@ -241,20 +241,22 @@ def translate_own(evs):
         if ev in ("x_settle", "end"):
             break
         if ev == "cmd_call":
-            if e["kind"] not in ("deploy", "remove"):
+            if e["kind"] not in ("deploy", "remove", "rollout_deploy"):
                 return None, "command kind " + e["kind"]
             hosts = e.get("hosts") or [""]
             paths = e.get("paths") or ["/"]
             bind = sorted({h + "|" + p for h in hosts for p in paths}) if e["kind"] == "deploy" else []
             cmds.append(c)
-            info.append({"kind": e["kind"], "name": e["svc"], "bind": bind})
+            info.append({"kind": {"rollout_deploy": "rdeploy"}.get(e["kind"], e["kind"]), "name": e["svc"], "bind": bind})
             for t in e.get("targets") or []:
                 if t in lb_of:
                     return None, "target reused"
                 lb_of[t] = c
         elif ev == "e_dep_new_lb":
             called.add(c)
-            out.append({"a": "Call", "c": c})
+            out.append({"a": "Call" if e.get("slot", 0) == 0 else "RdCall", "c": c})
+        elif ev == "e_update_lb":
+            out.append({"a": "UpdateSlot", "c": c})
         elif ev == "y_dep_healthy":
             out.append({"a": "WaitOk", "c": c})
         elif ev == "e_install":
@@ -273,6 +275,8 @@ def translate_own(evs):
             k = info[cmds.index(c)]["kind"]
             if k == "deploy" and c not in called:
                 return None, "deploy refused before it began"
+            if k == "rdeploy" and c not in called and e["res"] != "not_found":
+                return None, "rollout deploy refused before it began"
             if e["res"] not in ("ok", "unhealthy", "host_in_use", "not_found"):
                 return None, "result " + e["res"]
             out.append({"a": "PreRet", "c": c})
